@@ -73,7 +73,7 @@ impl BlindCase {
             seed: p.u64(),
             n_parties,
             n_in: p.urange(n_parties, (n_parties + 2).min(5)),
-            n_assets: p.urange(1, 2),
+            n_assets: *p.pick(&[1usize, 1, 2, 2, 3]),
             extra_outputs: p.urange(0, 2),
             conf_inputs: p.chance(2, 3),
             explicit_outputs: p.chance(1, 2),
@@ -126,11 +126,17 @@ pub fn build(spec: &BlindSpec) -> Flow {
         let asset = *p.pick(&assets);
         let vmax = if p.coin() { 1000 } else { 1 << 40 };
         let value = 1 + p.below(vmax);
-        let conf = spec.conf_inputs && p.chance(2, 3);
-        let (abf, vbf) = if conf { (gen::abf(&mut p), gen::vbf(&mut p)) } else { (AssetBlindingFactor::zero(), ValueBlindingFactor::zero()) };
+        // explicit / fully confidential / explicit asset with committed value / committed asset with zero value blinder
+        let kind = if spec.conf_inputs { p.below(6) } else { 0 };
+        let (abf, vbf) = match kind {
+            0 | 1 => (AssetBlindingFactor::zero(), ValueBlindingFactor::zero()),
+            2 => (AssetBlindingFactor::zero(), gen::vbf(&mut p)),
+            3 => (gen::abf(&mut p), ValueBlindingFactor::zero()),
+            _ => (gen::abf(&mut p), gen::vbf(&mut p)),
+        };
         let utxo = TxOut {
-            asset: if conf { Asset::new_confidential(secp, asset, abf) } else { Asset::Explicit(asset) },
-            value: if conf { Value::new_confidential_from_assetid(secp, value, asset, vbf, abf) } else { Value::Explicit(value) },
+            asset: if kind >= 3 { Asset::new_confidential(secp, asset, abf) } else { Asset::Explicit(asset) },
+            value: if kind >= 2 { Value::new_confidential_from_assetid(secp, value, asset, vbf, abf) } else { Value::Explicit(value) },
             nonce: Nonce::Null,
             script_pubkey: spk(&mut p),
             witness: TxOutWitness::default(),
@@ -140,7 +146,15 @@ pub fn build(spec: &BlindSpec) -> Flow {
         let issue = spec.issuance && p.chance(1, 2);
         if issue {
             let amt = 1 + p.below(1 << 30);
-            txin.asset_issuance = AssetIssuance { asset_blinding_nonce: gen::ZERO_TWEAK, asset_entropy: p.arr32(), amount: Value::Explicit(amt), inflation_keys: if p.coin() { Value::Explicit(2) } else { Value::Null } };
+            // a new issuance (with or without reissuance tokens) or, one time in four, a reissuance (non-zero blinding
+            // nonce, entropy carried in the input, no tokens)
+            let reissue = p.chance(1, 4);
+            txin.asset_issuance = AssetIssuance {
+                asset_blinding_nonce: if reissue { *p.pick(&gen::pool().tweaks) } else { gen::ZERO_TWEAK },
+                asset_entropy: p.arr32(),
+                amount: Value::Explicit(amt),
+                inflation_keys: if !reissue && p.coin() { Value::Explicit(2) } else { Value::Null },
+            };
         }
         let mut inp = if spec.via_from_tx {
             let mut x = Input::from_txin(txin.clone());
@@ -153,7 +167,7 @@ pub fn build(spec: &BlindSpec) -> Flow {
                 x.issuance_value_amount = txin.asset_issuance.amount.explicit();
                 x.issuance_inflation_keys = txin.asset_issuance.inflation_keys.explicit();
                 x.issuance_asset_entropy = Some(txin.asset_issuance.asset_entropy);
-                x.issuance_blinding_nonce = Some(gen::ZERO_TWEAK);
+                x.issuance_blinding_nonce = Some(txin.asset_issuance.asset_blinding_nonce);
             }
             x
         };
@@ -207,7 +221,9 @@ pub fn build(spec: &BlindSpec) -> Flow {
                 let sk = gen::secret_key(&mut p);
                 let pk = PublicKey::from_secret_key(secp, &sk);
                 let mut o = Output::new_explicit(spk(&mut p), v, *asset, Some(elements::bitcoin::PublicKey { inner: pk, compressed: true }));
-                o.blinder_index = Some(idx);
+                // the blinder index names the PARTY: any of its inputs will do, not only one of the same asset
+                let own: Vec<u32> = (0..owners.len()).filter(|i| owners[*i] == *party).map(|i| i as u32).collect();
+                o.blinder_index = Some(if p.coin() { idx } else { *p.pick(&own) });
                 outs.push((o, Some(sk), (*asset, v)));
                 party_has_blinded[*party] = true;
             }
